@@ -13,6 +13,7 @@
   (the seeded `incNonce` changes of C02, C05 and C06 each break `incNonce_tie`).
 -/
 import Proofs.GoTieMisc
+import Proofs.GoTieStreamR
 namespace AgeModel
 namespace Tie.C02
 
@@ -32,6 +33,35 @@ theorem setLastChunkFlag_tie (i : Nat) (last : Bool) :
 theorem nonceIsZero_tie (i : Nat) (last : Bool) (h : i < 2 ^ 88) :
     Extracted.stream_nonceIsZero (Stream.nonce i last) = .ok (decide (i = 0 ∧ last = false)) :=
   GoTie.nonceIsZero_tie i last h
+
+
+/-! ## stream.Reader itself (DESIGN.md §5.3)
+
+`(*Reader).Read` and `(*Reader).readChunk` are TRANSLATED from internal/stream/stream.go on every
+run — `unread` and `in` as VIEWS into the struct's own `buf` (reads and writes go to the array,
+re-slicing is bounds-checked), the source as bytes followed by a clean end or an error, the AEAD
+abstract (`GoTie.AeadEnv`: it is the model's, tag 16). SIMULATION: from related states one
+`Read(p)` of the translated code and one `Reader.read` of the model return the same count, the
+same bytes in the caller's buffer, corresponding errors, and related states. A fresh reader is
+related to `Reader.new` (`reader_new_rel`). By induction over calls, `tamper_prefix`,
+`tampered_never_eof`, `reader_carries_over`, `accepts_only_own_chunking` (Props/C02) hold of the
+reader in the source — the EOF probe, the second `Open` under the final flag, the empty-last-chunk
+test, the sticky error included. (Fewer than 2^88 chunks.) -/
+
+theorem reader_read_tie {α : Type} (A : AEAD) (k : Bytes) (E : GoTie.AeadEnv α A k)
+    (r : Extracted.stream_Reader α) (m : AgeModel.Stream.Reader) (h : GoTie.RRel r m) (hctr : m.ctr + 1 < 2 ^ 88) (p : Bytes) :
+    ∃ res, Extracted.stream_Reader_Read E.over E.open_ r p = .ok res ∧
+      let mr := m.read A 65536 (2 ^ 88) k p.length
+      res.1 = Int.ofNat mr.2.1.length ∧
+      GoTie.rdErrRel res.2.1 mr.2.2 ∧
+      GoTie.RRel res.2.2.1 mr.1 ∧
+      res.2.2.2 = mr.2.1 ++ p.drop mr.2.1.length :=
+  GoTie.reader_read_tie A k E r m h hctr p
+
+theorem reader_new_rel {α : Type} (a : α) (data : Bytes) (fail : Bool) :
+    GoTie.RRel (⟨a, ⟨data, fail⟩, 0, 0, List.replicate 65552 0, none, List.replicate 12 0⟩ : Extracted.stream_Reader α)
+      (AgeModel.Stream.Reader.new ⟨data, fail⟩) :=
+  GoTie.reader_new_rel a data fail
 
 end Tie.C02
 end AgeModel
